@@ -192,6 +192,94 @@ int main(int argc, char** argv){
 PAIRS = [('1e-7', '1e-7'), ('2.5e-7', '2.5e-7'), ('1e-3', '1e-3'), ('1e-7', '2e-7'), ('1e-7', '2.5e-7'), ('1e-8', '3e-8'), ('1e-7', '1.7e-7'), ('0.1', '0.3')]
 
 
+TABLE_DRIVER = r'''
+#include <cstdio>
+#include <cstdlib>
+#include <cmath>
+#include <fstream>
+#include <sstream>
+#include <string>
+#include <vector>
+#include "epithelial_cell.hpp"
+#include "statistics_writer.hpp"
+// The real statistics writers (in-memory and csv, argv[1] = path of a scratch csv file) on a small population recorded three times with a
+// population that shrinks: one header, per record one row per listed cell, every row as wide as the header, the columns cell_id,
+// type_id, area, volume, target_volume, pressure equal to the cell's values printed with the documented format.
+static void octa(double s, double ox, std::vector<double>& pos, std::vector<unsigned>& faces){
+  const double v[6][3] = {{1,0,0},{-1,0,0},{0,1,0},{0,-1,0},{0,0,1},{0,0,-1}};
+  const unsigned f[8][3] = {{0,2,4},{2,1,4},{1,3,4},{3,0,4},{2,0,5},{1,2,5},{3,1,5},{0,3,5}};
+  for(auto& p: v){ pos.push_back(s*p[0]+ox); pos.push_back(s*p[1]); pos.push_back(s*p[2]); }
+  for(auto& t: f){ faces.push_back(t[0]); faces.push_back(t[1]); faces.push_back(t[2]); }
+}
+static std::vector<std::string> split(const std::string& l, char sep){ std::vector<std::string> o; std::string cur; for(char ch: l){ if(ch == sep){ o.push_back(cur); cur.clear(); } else cur += ch; } if(!cur.empty()) o.push_back(cur); return o; }
+static std::string fmt(const char* f, double x){ char b[64]; snprintf(b, sizeof b, f, x); return b; }
+static int check_table(const std::string& text, const std::vector<std::vector<cell_ptr>>& recorded, const std::vector<unsigned>& iters, const char* which){
+  int bad = 0;
+  std::vector<std::string> lines; { std::stringstream ss(text); std::string l; while(std::getline(ss, l)) lines.push_back(l); }
+  size_t expected_rows = 0; for(auto& r: recorded) expected_rows += r.size();
+  if(lines.size() != 1 + expected_rows){ printf("FAIL %s: %zu lines, expected one header and %zu rows\n", which, lines.size(), expected_rows); return 1; }
+  const std::vector<std::string> header = split(lines[0], ',');
+  auto col = [&](const char* name){ for(size_t k = 0; k < header.size(); k++) if(header[k] == name) return (int)k; return -1; };
+  const int c_it = col("iteration"), c_id = col("cell_id"), c_ty = col("type_id"), c_ar = col("area"), c_vo = col("volume"), c_tv = col("target_volume"), c_pr = col("pressure");
+  if(c_it < 0 || c_id < 0 || c_ty < 0 || c_ar < 0 || c_vo < 0 || c_tv < 0 || c_pr < 0){ printf("FAIL %s: a documented column is missing from the header '%s'\n", which, lines[0].c_str()); return 1; }
+  for(size_t k = 0; k < header.size(); k++) for(size_t j = k + 1; j < header.size(); j++) if(header[k] == header[j]){ printf("FAIL %s: column '%s' appears twice\n", which, header[k].c_str()); bad++; }
+  size_t li = 1;
+  for(size_t r = 0; r < recorded.size(); r++) for(const cell_ptr& c: recorded[r]){
+    const std::vector<std::string> f = split(lines[li], ',');
+    if(f.size() != header.size()){ printf("FAIL %s: row %zu has %zu fields, the header has %zu\n", which, li, f.size(), header.size()); bad++; li++; continue; }
+    if(f[c_it] != std::to_string(iters[r])){ printf("FAIL %s: row %zu is labelled iteration %s, recorded at %u\n", which, li, f[c_it].c_str(), iters[r]); bad++; }
+    if(f[c_id] != std::to_string(c->get_id())){ printf("FAIL %s: row %zu cell_id %s, the cell has id %u\n", which, li, f[c_id].c_str(), c->get_id()); bad++; }
+    if(f[c_ty] != std::to_string((int)c->get_cell_type()->global_type_id_)){ printf("FAIL %s: row %zu type_id %s\n", which, li, f[c_ty].c_str()); bad++; }
+    if(f[c_ar] != fmt("%.3e", c->get_area())){ printf("FAIL %s: row %zu area %s, the cell has %s\n", which, li, f[c_ar].c_str(), fmt("%.3e", c->get_area()).c_str()); bad++; }
+    if(f[c_vo] != fmt("%.3e", c->get_volume())){ printf("FAIL %s: row %zu volume %s, the cell has %s\n", which, li, f[c_vo].c_str(), fmt("%.3e", c->get_volume()).c_str()); bad++; }
+    if(f[c_tv] != fmt("%.3e", c->get_target_volume())){ printf("FAIL %s: row %zu target_volume %s, the cell has %s\n", which, li, f[c_tv].c_str(), fmt("%.3e", c->get_target_volume()).c_str()); bad++; }
+    if(std::fabs(atof(f[c_pr].c_str()) - c->get_pressure()) > 1e-3 * std::max(1.0, std::fabs(c->get_pressure()))){ printf("FAIL %s: row %zu pressure %s, the cell has %g\n", which, li, f[c_pr].c_str(), c->get_pressure()); bad++; }
+    li++;
+  }
+  return bad;
+}
+int main(int argc, char** argv){
+  const std::string csv = argv[1];
+  face_type_parameters ft; ft.name_ = "apical"; ft.face_type_global_id_ = 0;
+  std::vector<cell_ptr> cells;
+  for(unsigned k = 0; k < 4; k++){
+    auto ct = std::make_shared<cell_type_parameters>(); ct->name_ = "type"; ct->global_type_id_ = (short)(k % 3); ct->mass_density_ = 1.0; ct->target_isoperimetric_ratio_ = 150.; ct->add_face_type(ft);
+    std::vector<double> pos; std::vector<unsigned> faces; octa(0.5 + 0.4 * k, 5.0 * k, pos, faces);
+    auto c = std::make_shared<epithelial_cell>(pos, faces, 10 + 3 * k, ct); c->initialize_cell_properties(true); c->set_local_id(k);
+    c->pressure_ = 12.5 * (k + 1); c->target_volume_ = c->volume_ * (1.0 + 0.1 * k);
+    cells.push_back(c);
+  }
+  string_statistics_writer sw; csv_file_statistics_writer fw(csv);
+  std::vector<std::vector<cell_ptr>> recorded; std::vector<unsigned> iters;
+  auto record = [&](unsigned it){ sw.write_data(it, 0.25 * it, cells); fw.write_data(it, 0.25 * it, cells); recorded.push_back(cells); iters.push_back(it); };
+  record(0);
+  cells[1]->pressure_ = -3.0; cells[2]->volume_ *= 1.5; cells[2]->area_ *= 1.2;
+  record(50);
+  cells.erase(cells.begin() + 1);                       // a cell was removed from the population between two records
+  record(73);
+  // the rows must describe the cells as they were when recorded: re-check only the structure for earlier records by re-reading now would be
+  // wrong, so the values are compared right after each record instead (here: the last record) and the structure for all
+  int bad = 0;
+  { std::vector<std::vector<cell_ptr>> last(recorded.begin() + 2, recorded.end()); std::vector<unsigned> li(iters.begin() + 2, iters.end());
+    std::stringstream all(sw.get_string()); std::string l, head, tail; std::getline(all, head); size_t skip = recorded[0].size() + recorded[1].size(); size_t k = 0;
+    while(std::getline(all, l)){ if(k++ >= skip) tail += l + "\n"; }
+    bad += check_table(head + "\n" + tail, last, li, "in-memory table (last record)"); }
+  // structure of the whole tables
+  for(int w = 0; w < 2; w++){
+    std::string text; if(w == 0) text = sw.get_string(); else { std::ifstream in(csv); std::stringstream b; b << in.rdbuf(); text = b.str(); }
+    std::vector<std::string> lines; { std::stringstream ss(text); std::string l; while(std::getline(ss, l)) lines.push_back(l); }
+    const size_t rows = recorded[0].size() + recorded[1].size() + recorded[2].size();
+    if(lines.size() != 1 + rows){ printf("FAIL %s: %zu lines, expected 1 header + %zu rows\n", w ? "csv file" : "in-memory table", lines.size(), rows); bad++; continue; }
+    const size_t width = split(lines[0], ',').size();
+    for(size_t k = 1; k < lines.size(); k++) if(split(lines[k], ',').size() != width){ printf("FAIL %s: row %zu has %zu fields, the header has %zu\n", w ? "csv file" : "in-memory table", k, split(lines[k], ',').size(), width); bad++; }
+    size_t li = 1; for(size_t r = 0; r < recorded.size(); r++) for(size_t j = 0; j < recorded[r].size(); j++, li++){ auto f = split(lines[li], ','); if(f.empty() || f[0] != std::to_string(iters[r])){ printf("FAIL %s: row %zu belongs to record %u but is labelled %s\n", w ? "csv file" : "in-memory table", li, iters[r], f.empty() ? "" : f[0].c_str()); bad++; } }
+  }
+  if(bad){ printf("FAIL %d problem(s) in the statistics tables\n", bad); return 1; }
+  printf("OK statistics tables: one header, one row per listed cell and record, rows as wide as the header, documented columns match the cells\n"); return 0;
+}
+'''
+
+
 def extra_checks(run):
     import native, tempfile, shutil, json, os
     out = []
@@ -210,6 +298,21 @@ def extra_checks(run):
             json.dump({'property': 'C19', 'obligation': name, 'native': {'args': [dt, S, '400'], 'output': txt}, 'confirmed': True}, open(rp, 'w'), indent=1)
             rec.update({'violation': True, 'replay': rp, 'confirmed': True})
         out.append(rec)
+    # structure of the statistics tables (iostream output is not interpreted by the contracts): one native scenario, both writers
+    d = tempfile.mkdtemp(prefix='verif_c19_')
+    try:
+        code, txt = native.run_driver(TABLE_DRIVER, [os.path.join(d, 'stats.csv')], timeout=300)
+    finally:
+        shutil.rmtree(d, ignore_errors=True)
+    name = 'C19/bounded/statistics-table-structure-and-documented-columns'
+    rec = {'name': name, 'bound': 'four cells of three types recorded at iterations 0, 50 and 73 with one cell removed before the last record; in-memory and csv writers of the current tree',
+           'result': 'tables well formed' if code == 0 else ('malformed table or wrong column' if code == 1 else 'driver failed (%d)' % code), 'output': txt[-600:]}
+    if code == 1:
+        rp = os.path.join(os.path.dirname(os.path.dirname(os.path.abspath(__file__))), 'replays', 'C19-bounded-statistics-table.json')
+        os.makedirs(os.path.dirname(rp), exist_ok=True)
+        json.dump({'property': 'C19', 'obligation': name, 'native': {'args': ['<scratch csv>'], 'output': txt, 'driver': 'specs/C19.py:TABLE_DRIVER'}, 'confirmed': True}, open(rp, 'w'), indent=1)
+        rec.update({'violation': True, 'replay': rp, 'confirmed': True})
+    out.append(rec)
     return out
 
 
@@ -220,8 +323,9 @@ EXPLANATION = ("save_mesh: the file number becomes floor(t/S)+1, a pair of mesh 
                "per iteration (time advance: C03), iteration counter +1; run: the loop exits only when t >= T or no cell is left, final statistics "
                "written once; statistics columns: the lambdas registered under cell_id, type_id, area, volume, target_volume, pressure format "
                "exactly that attribute of the cell (format_number as an uninterpreted function of value and format). Bounded stand-in (not "
-               "proof): the numbering is run natively in doubles on the real solver for a list of (dt, S) pairs.")
+               "proof): the numbering is run natively in doubles on the real solver for a list of (dt, S) pairs; the row / field structure of both "
+               "statistics writers and the documented columns are checked on one native scenario (four cells, three records, one removal).")
 ASSUMPTIONS = ["exact reals in the contracts; the floating-point behaviour of the numbering is only sampled by the bounded native check",
                "callees of run_iteration do not write the solver's iteration counter, component pointers or the integrator's tmp flag (assumed frames)",
                "format_number / sprintf and the iostream output are not interpreted: 'parseable', 'as many fields as the header' and the printed precision are not decided"]
-UNVERIFIED = ["row / field structure of the statistics table (iostream), mesh_writer (C16 is not applicable)", "the in-memory statistics writer beyond the shared column table"]
+UNVERIFIED = ["row / field structure of the statistics table (iostream): sampled by the bounded native scenario only; mesh_writer (C16 is not applicable)", "the in-memory statistics writer beyond the shared column table"]
